@@ -245,6 +245,32 @@ theorem attempts_bounded (bo : Nat → Option Nat) (N : Nat) (hN : ∀ a, N < a 
     · have : ¬ N < e.2.2 := fun hlt => by simp [hN _ hlt] at hsome
       simp only [List.length_cons]; omega
 
+/-- … and after a restart: a message the storage held with counter `att id` is handed to the relay at most `N + 1 - att id` more
+    times (once, if the counter is already beyond the cut-off). -/
+theorem attempts_bounded_after_restart (bo : Nat → Option Nat) (N : Nat) (hN : ∀ a, N < a → bo a = none) (att : Nat → Nat)
+    (hpre : (pre.map (·.1)).Nodup) (hrc : ∀ id ∈ pre.map (·.1), (rc id).Nodup)
+    {q : State} (hr : ReachB fb bo (startAt pre rc nn att) q) (id : Nat) (hid : id ∈ pre.map (·.1)) :
+    (q.handed.filter (·.1 == id)).length ≤ max (N + 1 - att id) 1 := by
+  have h0 := inv_startAt fb pre rc nn att hpre hrc
+  have hshape := (reach_A_from h0 (A_startAt pre rc nn att) hr.reach).shape id
+  have hb := (reach_B_from h0 (A_startAt pre rc nn att) (B_startAt bo pre rc nn att) hr).handed
+  simp only [hOf, hid, if_true] at hshape
+  cases hl : q.handed.filter (·.1 == id) with
+  | nil => simp
+  | cons e rest =>
+    rw [hl] at hshape
+    simp only [List.map_cons, List.length_cons, range_succ_reverse, List.cons.injEq] at hshape
+    have hmem : e ∈ q.handed.filter (·.1 == id) := by rw [hl]; simp
+    have he1 : e.1 = id := by simpa using (List.mem_filter.mp hmem).2
+    have := hb e (List.mem_filter.mp hmem).1
+    simp only [he1, hid, if_true] at this
+    simp only [List.length_cons]
+    rcases this with h0' | hsome
+    · have : rest.length = 0 := by omega
+      omega
+    · have hle : ¬ N < e.2.2 := fun hlt => by simp [hN _ hlt] at hsome
+      omega
+
 /-- non-vacuity: a run with a partial delivery, a retry, a second attempt that is deferred and a backoff that gives up -/
 def demoRun : List QM.Label :=
   [.sched, .sleep, .write 1 0 [10, 11, 12] true, .activate 1, .done 1 (.mapping [(12, .ok), (10, .temp 1), (11, .perm 2)]),
